@@ -37,8 +37,10 @@ RULE = ('Hypothesis draws a configuration (alias-free grid: both transform imple
         'the independent weak-form reference (which must itself vanish there). O2: low-degree random states '
         '(sparse entries + seeded noise, band limit s <= L-3); oracle = weak-form evaluation of the continuous '
         'equations with scipy spherical harmonics on a fine Gauss grid and loop implementations of the vertical '
-        'finite differences; all coefficients l <= L-2 of every leaf compared with rtol 1e-8 of the largest '
-        'individual term. distinct = hash of the JSON case; non-trivial rules are per sub-check')
+        'finite differences; all coefficients l <= L-2 of every leaf compared with rtol 1e-8 of the scale of that '
+        'leaf = max(largest individual term of the reference (Coriolis, pressure gradient, kinetic energy, '
+        'geopotential, advection ...; vorticity and divergence share theirs), field amplitude x flow rate, '
+        '1e-5 x operator norm x input norm). distinct = hash of the JSON case; non-trivial rules are per sub-check')
 ASSUMPTIONS = [
     'alias-free inputs: every field is band-limited to s <= L-3 and the grid integrates products of k fields '
     'exactly (latitude exactness D >= k*s + L + 2, longitude nodes > k*min(s, M-1) + M; k = 2 shallow water and '
@@ -145,7 +147,7 @@ def _pe_o2_case(draw, tier, family):
   order = 3 if family == 'dry' else 4
   g, s = draw(_grid_cfg(order=order, s_mode='draw', s_max=3 if quick else 5, max_m=8 if quick else 21,
                         extra_order=0 if family == 'dry' else NQ))
-  b = draw(gens.sigma_boundaries(1, 4 if quick else 8))
+  b = draw(gens.sigma_boundaries(draw(st.sampled_from([2, 2, 2, 1])), 4 if quick else 8))
   n = len(b) - 1
   specs = draw(_specs())
   if specs['kind'] == 'earth':
@@ -836,38 +838,38 @@ SUBCHECKS = [
     Subcheck('pe_dry_weakform', functools.partial(run_pe_weakform, family='dry'),
              strategy=lambda tier: _pe_o2_case(tier, 'dry'),
              examples={'quick': 10, 'thorough': 60}, shards={'quick': 1, 'thorough': 6},
-             wall={'quick': 170.0, 'thorough': 1500.0}, weight=3,
+             wall={'quick': 400.0, 'thorough': 1500.0}, weight=3,
              rule='non-trivial = >= 2 levels and a state with non-zero vorticity, divergence, T\' and grad(lnps)',
              doc='O2: PrimitiveEquations / PrimitiveEquationsWithTime == weak-form reference; get_geopotential'),
     Subcheck('pe_moist_weakform', functools.partial(run_pe_weakform, family='moist'),
              strategy=lambda tier: _pe_o2_case(tier, 'moist'),
              examples={'quick': 10, 'thorough': 60}, shards={'quick': 1, 'thorough': 6},
-             wall={'quick': 170.0, 'thorough': 1500.0}, weight=3,
+             wall={'quick': 400.0, 'thorough': 1500.0}, weight=3,
              rule='non-trivial = >= 2 levels and a state with non-zero vorticity, divergence, T\', grad(lnps), humidity',
              doc='O2: MoistPrimitiveEquations (+ cloud class with zero cloud content) == weak-form reference'),
     Subcheck('sw_weakform', run_sw_weakform, strategy=lambda tier: _sw_o2_case(tier),
              examples={'quick': 12, 'thorough': 80}, shards={'quick': 1, 'thorough': 4},
-             wall={'quick': 170.0, 'thorough': 1500.0}, weight=2,
+             wall={'quick': 400.0, 'thorough': 1500.0}, weight=2,
              rule='non-trivial = a state with non-zero vorticity, divergence and potential',
              doc='O2: ShallowWaterEquations == weak-form reference of the layered equations'),
     Subcheck('pe_rest_over_orography', run_pe_rest, strategy=lambda tier: _pe_rest_case(tier),
              examples={'quick': 8, 'thorough': 50}, shards={'quick': 1, 'thorough': 4},
-             wall={'quick': 170.0, 'thorough': 1500.0}, weight=2,
+             wall={'quick': 400.0, 'thorough': 1500.0}, weight=2,
              rule='non-trivial = non-flat orography and T0 != T_ref on some level',
              doc='O1 (i): resting isothermal hydrostatic atmosphere over band-limited orography is steady'),
     Subcheck('pe_solid_body_rotation', run_pe_solid, strategy=lambda tier: _pe_solid_case(tier),
              examples={'quick': 8, 'thorough': 50}, shards={'quick': 1, 'thorough': 4},
-             wall={'quick': 170.0, 'thorough': 1500.0}, weight=2,
+             wall={'quick': 400.0, 'thorough': 1500.0}, weight=2,
              rule='non-trivial = per-layer temperatures differ (or a single layer)',
              doc='O1 (ii): solid-body rotation with balancing orography is steady (dry / moist / cloud)'),
     Subcheck('sw_repo_steady_states', run_sw_repo_states, strategy=lambda tier: _sw_jet_case(tier, True),
              examples={'quick': 8, 'thorough': 50}, shards={'quick': 1, 'thorough': 2},
-             wall={'quick': 170.0, 'thorough': 1500.0}, weight=1,
+             wall={'quick': 400.0, 'thorough': 1500.0}, weight=1,
              rule='non-trivial = a non-zero zonal wind profile',
              doc='O1 (iii): shallow_water_states.one_layer / multi_layer have the requested wind and zero tendency'),
     Subcheck('sw_selfbuilt_jets', run_sw_selfbuilt, strategy=lambda tier: _sw_jet_case(tier, False),
              examples={'quick': 8, 'thorough': 50}, shards={'quick': 1, 'thorough': 2},
-             wall={'quick': 170.0, 'thorough': 1500.0}, weight=1,
+             wall={'quick': 400.0, 'thorough': 1500.0}, weight=1,
              rule='non-trivial = a non-zero zonal wind profile',
              doc='O1 (iii): closed-form balanced jets (any rotation rate, radius, densities, orography) are steady'),
 ]
